@@ -98,9 +98,10 @@ McTemplates == { t \in DataTemplates(McWraps) : t.u1 \in McUnitKinds /\ t.u2 \in
 \* the tab-separated tokens of the raw line, then Python's line.strip(): empty leading/trailing
 \* columns vanish together with their tabs (the wrap whitespace goes too)
 Tok(kind, v) == [kind |-> kind, v |-> v]
-TokEmpty(t)  == (t.kind = "unit" /\ t.v = "empty") \/ (t.kind = "label" /\ t.v = "empty")
+TokEmpty(t)  == t.v = "empty"
 RawTokens(t) ==
-  IF t.tabs = "spaces" THEN << Tok("joined", "x") >>
+  IF t.tabs = "spaces"      \* "u1 label u2": one column (all blank if the three pieces are empty)
+  THEN << Tok("joined", IF t.u1 = "empty" /\ t.label = "empty" /\ t.u2 = "empty" THEN "empty" ELSE "x") >>
   ELSE IF t.tabs = "two" THEN << Tok("unit", t.u1), Tok("label", t.label) >>
   ELSE IF t.tabs = "three" THEN << Tok("unit", t.u1), Tok("label", t.label), Tok("unit", t.u2) >>
   ELSE << Tok("unit", t.u1), Tok("label", t.label), Tok("unit", t.u2), Tok("extra", "0") >>
@@ -195,15 +196,17 @@ ExpectedBp == LET ks == { i \in 1..Len(inp.pairs) : PairTemplateKept(inp.pairs[i
 ExpectedSt == { <<a, b>> \in (1..Len(inp.stacks)) \X (2..(MaxStackLen + 1)) :
                   b <= Len(inp.stacks[a]) /\ NameKindResolves(inp.stacks[a][b - 1]) /\ NameKindResolves(inp.stacks[a][b]) }
 DssrPairsExact  == Mode = "dssr" => pc # "raised" /\ (pc = "done" => out.bp = ExpectedBp)
+RECURSIVE SumSteps(_)
+SumSteps(ts) == IF ts = <<>> THEN 0 ELSE StackTemplateSteps(Head(ts)) + SumSteps(Tail(ts))
 DssrStacksExact == Mode = "dssr" /\ pc = "done" =>
                      RangeOf(out.st) = ExpectedSt /\ Len(out.st) = Cardinality(ExpectedSt)
-                     /\ Len(out.st) = LET t == inp.stacks IN
-                          IF t = <<>> THEN 0 ELSE Cardinality(ExpectedSt)
+                     /\ Len(out.st) = SumSteps(inp.stacks)
 
 \* ------------------------------------------------------------------ dispatch
 Init == IF Mode = "label" THEN InitLabel ELSE IF Mode = "listing" THEN InitListing ELSE InitDssr
-Next == \/ Mode = "label" /\ NextLabel
-        \/ Mode = "listing" /\ NextListing
-        \/ Mode = "dssr" /\ NextDssr
+\* control states are disjoint between the modes, so the actions can be listed flat (per-action coverage)
+Next == \/ StripN \/ StripA \/ TryBR \/ TryBPh \/ TryStack \/ TryLW \/ FallThrough
+        \/ SkipLine \/ ParseLine \/ TooFewParts \/ ParseUnit1 \/ ParseUnit2 \/ Unify \/ AppendItem \/ Catch \/ Eof
+        \/ DssrPair \/ DssrPairsEnd \/ DssrStackStep \/ DssrStackEnd \/ DssrDone
 Spec == Init /\ [][Next]_vars
 =============================================================================
